@@ -83,6 +83,10 @@ C18_PARTS = [
     {"name": "points_t5", "driver": "cand_points", "tiers": ("quick",),
      "args": {"T": 5, "D": 2, "npos": 2, "shuffle": True},
      "trace": {"module": "TraceCandGraph.tla", "consts": {"T": "5", "D": "2", "Fixes": tlc.tla_set(["F14"])}}},
+    # 3D + t: the pixel row lies along z, with a z scale (first occupied plane > 0, anisotropic spacing)
+    {"name": "seg_zaxis", "driver": "cand_seg",
+     "args": {"T": 3, "PX": 3, "variants": [[2, 2], [1, 1]], "axis": "z"},
+     "trace": {"module": "TraceCandSeg.tla", "consts": {"T": "3", "PX": "3"}}},
     {"name": "seg_t5", "driver": "cand_seg",
      "args": {"T": 5, "PX": 1, "variants": [[1, 1]]},
      "trace": {"module": "TraceCandSeg.tla", "consts": {"T": "5", "PX": "1"}}},
@@ -119,6 +123,11 @@ C13_PARTS = [
     {"name": "relabel_builder", "driver": "relabel",
      "args": {"quick": {"T": 2, "PX": 2, "L": 3, "S": 2, "MaxNode": 3, "via": "builder", "cap": 3},
               "thorough": {"T": 2, "PX": 2, "L": 3, "S": 2, "MaxNode": 3, "via": "builder", "cap": 30}},
+     "trace": {"module": "TraceRelabel.tla", "consts": _RL(2, 2, 3, 2, 3)}},
+    # the array is read from a folder of per-frame TIFFs with unpadded frame numbers (12 frames, two of them used)
+    {"name": "relabel_tiffdir", "driver": "relabel",
+     "args": {"quick": {"T": 2, "PX": 2, "L": 3, "S": 2, "MaxNode": 3, "via": "tiffdir", "cap": 2},
+              "thorough": {"T": 2, "PX": 2, "L": 3, "S": 2, "MaxNode": 3, "via": "tiffdir", "cap": 20}},
      "trace": {"module": "TraceRelabel.tla", "consts": _RL(2, 2, 3, 2, 3)}},
     # the same with imported positions (the importer then validates the array against the graph first)
     {"name": "relabel_dfpos", "driver": "relabel",
